@@ -113,10 +113,16 @@ func (ft *funcTr) setupSegState(sg Segment) {
 			}
 		}
 		if found == nil {
+			found = ft.segLocalState(name) // segfail.go: a local pointer to a table struct
+		}
+		if found == nil {
 			t.fail(ft.fd, "segment %s of %s: state variable %s is neither the receiver nor a parameter", sg.Name, sg.Func, name)
 		}
 		switch t.kindOf(found.Type()) {
 		case kPtrStruct:
+			if ft.segLocalStateVar(found) { // segfail.go
+				break
+			}
 			if found != t.recvVar(ft.fd) {
 				t.fail(ft.fd, "segment %s of %s: state variable %s is a pointer to a struct but not the receiver", sg.Name, sg.Func, name)
 			}
